@@ -246,7 +246,8 @@ func initArrayList() {
 			callable := args[1]
 			// callable is a closure
 			if function, ok := callable.SafeAsReference().(Closure); ok {
-				for i := range self.Length() {
+				// the closure may remove elements from the list
+				for i := 0; i < self.Length(); i++ {
 					element := self.AtVal(i)
 					result, err := vm.CallClosure(function, element)
 					if !err.IsUndefined() {
@@ -261,7 +262,7 @@ func initArrayList() {
 			}
 
 			// callable is another value
-			for i := range self.Length() {
+			for i := 0; i < self.Length(); i++ {
 				element := self.AtVal(i)
 				result, err := vm.CallMethodByName(symbol.L_call, callable, element)
 				if !err.IsUndefined() {
@@ -283,29 +284,30 @@ func initArrayList() {
 		func(vm *Thread, args []value.Value) (value.Value, value.Value) {
 			self := args[0].AsReference().(value.ArrayList)
 			callable := args[1]
-			newList := value.NewArrayListOfValueWithLength(self.Length())
+			newList := value.NewArrayListOfValue(self.Length())
 
 			// callable is a closure
 			if function, ok := callable.SafeAsReference().(Closure); ok {
-				for i := range self.Length() {
+				// the closure may remove elements from the list
+				for i := 0; i < self.Length(); i++ {
 					element := self.AtVal(i)
 					result, err := vm.CallClosure(function, element)
 					if !err.IsUndefined() {
 						return value.Undefined, err
 					}
-					newList.SetAt(i, result)
+					newList.Append(result)
 				}
 				return value.Ref(newList), value.Undefined
 			}
 
 			// callable is another value
-			for i := range self.Length() {
+			for i := 0; i < self.Length(); i++ {
 				element := self.AtVal(i)
 				result, err := vm.CallMethodByName(symbol.L_call, callable, element)
 				if !err.IsUndefined() {
 					return value.Undefined, err
 				}
-				newList.SetAt(i, result)
+				newList.Append(result)
 			}
 			return value.Ref(newList), value.Undefined
 		},
